@@ -419,6 +419,29 @@ theorem C17_absolute_time :
   intro N ts ts' i j hi hj h
   simp only [hv, List.getElem_map, h]
 
+/-- a band of zero or negative width is rejected by both constructors, whatever else is given -/
+theorem C17_band_rejected (n : Nat) (t0 t1 tL tF fmin fmax : ℝ) (spec : AmpSpec) (rv tp rs : Option ℝ)
+    (uq : ℝ) (tape : List ℝ) (h : fmax ≤ fmin) :
+    mkFFT n t0 t1 tL fmin fmax spec rv tp rs uq tape = none ∧
+    mkFull tF tL fmin fmax spec rv tp rs uq tape = none := by
+  constructor
+  · unfold mkFFT; simp [h]
+  · unfold mkFull; simp [h]
+
+/-- nothing is remembered between evaluations: after the published basis of an object has been
+replaced (as `io.py` does when it replays stored noise bases) every later evaluation, on any window,
+is the evaluation of the object that was given that basis from the start -/
+theorem C17_basis_replaced (N : FFTNoise) (B' : NoiseBasis) (ts : List ℝ) (B : NoiseBasis) :
+    ({ N with basis := B' } : FFTNoise).values ts = ts.map ({ N with basis := B' } : FFTNoise).at ∧
+    (∀ M : FFTNoise, M.basis = B' → M.fmin = N.fmin → M.fmax = N.fmax → M.unique = N.unique →
+        M.nAll = N.nAll → M.dt = N.dt → M.start = N.start → M.stop = N.stop →
+        ∀ t, M.at t = ({ N with basis := B' } : FFTNoise).at t) ∧
+    fullValues B' ts = ts.map (fullAt B') ∧ (B = B' → fullValues B ts = fullValues B' ts) := by
+  refine ⟨C17_absolute_time.2.1 _ ts, ?_, rfl, fun h => by rw [h]⟩
+  intro M h1 h2 h3 h4 h5 h6 h7 h8 t
+  exact C17_same_basis_same_wave.2 M ({ N with basis := B' } : FFTNoise) (by rw [h1]) (by rw [h1]) (by rw [h1])
+    (by rw [h1]) h2 h3 h4 h5 h6 h7 h8 t
+
 /-! ## non-vacuity -/
 
 /-- 4 samples at `dt = 1`, band `[0.2, 0.3]`: the single in-band bin is `k = 1` (0.25), strictly
